@@ -90,8 +90,13 @@ func render(p models.Point) jview {
 				f.Type, f.B = "bool", x
 			}
 		case models.String:
-			f.Type, f.S = "string", []byte(it.StringValue())
-			f.SQ = q(f.S)
+			// StringValue can panic on a parsed point (known finding): observed per accessor
+			if pn := vh.Guard(func() { f.S = []byte(it.StringValue()) }); pn != "" {
+				f.Type, f.E, f.S = "err", 3, nil
+			} else {
+				f.Type = "string"
+				f.SQ = q(f.S)
+			}
 		case models.Empty:
 			f.Type = "empty"
 		default:
